@@ -107,6 +107,9 @@ def _frame_part(chk, n):
         dist['chunkings'] = dist.get('chunkings', 0) + res['nchunkings']
         dist['records_read'] = dist.get('records_read', 0) + res['nread']
         dist['max_wire_len'] = max(dist.get('max_wire_len', 0), res['wire_len'])
+        if res.get('exhaustive_chunkings'):
+            dist['streams_fed_under_all_chunkings'] = dist.get('streams_fed_under_all_chunkings', 0) + 1
+            dist['longest_stream_fed_under_all_chunkings'] = max(dist.get('longest_stream_fed_under_all_chunkings', 0), res['feed_len'])
         if not sampled and scen.nontrivial(case, res) and res['wire_len'] < 400:
             sampled.append(1)
             chk.sample(dict(case=case, wire=res['wire_hex'], end=res['end'], read=res['got_hex']))
@@ -220,7 +223,8 @@ def run(chk):
     chk.cov['rule'] = (
         'frame (E3): random cases (records: id class x encoder x payload class [empty, header look-alike, newline-heavy, '
         'random bytes, nested objects, unicode text] x size incl. 64 KiB boundaries; reader limit 24..65536; clean / cut '
-        'anywhere / malformed tail; 3-6 chunkings per stream incl. byte-wise and cuts at record/header boundaries) through the '
+        'anywhere / malformed tail; 3-6 chunkings per stream incl. byte-wise and cuts at record/header boundaries, ALL 2^(L-1) '
+        'chunkings for streams of L <= 11 bytes) through the '
         'real write_record/read_record + asyncio.StreamReader, compared byte-exactly with the Lean model. '
         'pipeip (E3): random message lists in both directions through the real pipe.Server/Client (threads), trace replayed '
         'through the Pipe model; Connection framing compared byte-exactly. '
